@@ -203,6 +203,7 @@ Flags(i) ==
     cancel |-> step /\ CancelAnte(nd, s),
     mm |-> step /\ EarlierMM(nd, s) # {},
     mmDiff |-> step /\ EarlierMM(nd, s) # {} /\ nd.args.app # nd.args.pair,
+    mmPartial |-> step /\ nd.args.app = nd.args.pair /\ \E o \in EarlierMM(nd, s) : o.status = "PM",
     completed |-> step /\ \E o \in s2.orders : o.status = "C" /\ Was(s, o),
     expired |-> step /\ \E o \in s2.orders : o.status = "E" /\ Was(s, o),
     canceled |-> step /\ \E o \in s2.orders : o.status = "X" /\ Was(s, o),
@@ -220,7 +221,7 @@ Flags(i) ==
     residue |-> nd.st.tainted ]
 FL == [i \in 1..NLog |-> Flags(i)]
 Cnt(f) == Cardinality({i \in 1..NLog : FL[i][f]})
-Stats == PrintT(<<"STATS", [k \in {"step", "ok", "placed", "cancel", "mm", "mmDiff", "completed", "expired", "canceled", "partialEnd", "filled",
+Stats == PrintT(<<"STATS", [k \in {"step", "ok", "placed", "cancel", "mm", "mmDiff", "mmPartial", "completed", "expired", "canceled", "partialEnd", "filled",
                                    "emptied", "farmed", "activeFarm", "supply", "pending", "disabled", "zeroSupply", "activeUnfarm", "ledger", "residue"} |-> Cnt(k)]
                             @@ [nodes |-> NLog]>>)
 AllSeen == Stats /\ TLCGet("stats").distinct = NLog + NB + 1
